@@ -118,14 +118,23 @@ def run_check(repo, chk: Check, tier, prefix):
     groups = {}
     for o in H.obligations:
         groups.setdefault(o.name, []).append(o)
+    solver_budget_ms = (150 if tier == "quick" else 900) * 1000
+    spent = 0
     for name, insts in groups.items():
         results, ms, info, vac = [], 0, {}, 0
         for o in insts:
+            if "refuted" in results:
+                break  # one refuted instance decides the obligation
+            if spent > solver_budget_ms:
+                results.append("unknown")
+                info = {"solver_output": f"solver budget of this check ({solver_budget_ms // 1000} s) exhausted"}
+                continue
             if o.meta.get("path_infeasible"):
                 vac += 1  # the whole path is infeasible under the full path condition: vacuous instance
                 continue
             r, t, inf = discharge(o, timeout_ms=10000)
             ms += t
+            spent += t
             if r == "discharged":
                 # cover: hypotheses must be satisfiable, else the instance is vacuous
                 if not o.meta.get("cover_known", False):
